@@ -150,9 +150,15 @@ type Env struct {
 	FnAnys func([]interface{}) int          // takes what an array literal is typed as
 	Tuple  func(...interface{}) interface{} // returns (and so retains) its own argument slice
 	FnPIt  func(*Item) int                  // pointer parameter: accepts nil
+	FnCel  func(Celsius) float64            // parameter of a type defined from float64
+	FnLvl  func(Level) int                  // parameter of a type defined from int
 
 	log *Log
 }
+
+// types defined from predeclared numeric types
+type Celsius float64
+type Level int
 
 // Box holds a slice and a dynamic value: comparable as a Go type, but a Box
 // whose Any holds a slice panics when hashed.
@@ -246,6 +252,8 @@ func New(l *Log) *Env {
 	e.Arr3, e.ArrS = [3]int{7, 8, 9}, [2]string{"p", "q"}
 	e.MkBox = func(n int) Box { l.add("MkBox", n); return Box{Xs: []int{n, n + 1}, N: n, Any: []int{n}} }
 	e.FnAnys = func(xs []interface{}) int { l.add("FnAnys", xs); return len(xs) }
+	e.FnCel = func(c Celsius) float64 { l.add("FnCel", float64(c)); return float64(c) * 2 }
+	e.FnLvl = func(v Level) int { l.add("FnLvl", int(v)); return int(v) + 1 }
 	e.FnPIt = func(it *Item) int {
 		if it == nil {
 			l.add("FnPIt", nil)
